@@ -105,7 +105,7 @@ class C13(Spec):
     extra_models = ('slistp',)
     driver = 'slist'
     lib_srcs = ['slist.c']
-    header_words = ('keys', 'nlists', 'cmpmode', 'vsign')
+    header_words = ('keys', 'nlists', 'cmpmode', 'vsign', 'offs')
     vsign_every = 2
     rule = ('cases = corpus + one case per edge of the breadth-first closure of the Coq model over a small scope '
             '(shortest path to the state + the operation) + seeded random histories; a case is non-trivial when '
@@ -168,6 +168,8 @@ class C13(Spec):
         if tier == 'quick':
             cases, st = self.bfs([2, 100000, 0, 0, 1, 1])
             cases += [Case(c.name + 'd', c.header + ['cmpmode 1'], c.ops, 'closure') for c in cases if any(o.startswith('sort') for o in c.ops)]
+            from checks.c12 import offs_variants
+            cases += offs_variants(cases, every=2)
         else:
             cases, st = self.bfs([3, 1000000, 1, 0, 1, 0])
             c2, st2 = self.bfs([2, 1000000, 2, 0, 1, 0, 1])
@@ -222,7 +224,8 @@ class C13(Spec):
                     break
             cases.append(Case('rnd%d' % ci, ['keys ' + ' '.join(map(str, keys)), 'nlists %d' % nl,
                                             'cmpmode %d' % rnd.randrange(3)], ops, 'random'))
-        return cases
+        from checks.c12 import offs_variants
+        return cases + offs_variants(cases, every=1)
 
 
 SPEC = C13()
